@@ -13,7 +13,7 @@ import numpy as np
 
 from mc.engine import pool
 from mc.engine.report import Report, Res
-from mc.lib import families as F, kin, zoo
+from mc.lib import families as F, four, kin, zoo
 
 PID = "C02"
 BETA = 0.6 * np.array([0.48, -0.6, 0.64])
@@ -36,10 +36,16 @@ def _load(cfg):
 def card_work(payload):
     res = Res()
     for label, cfg in payload["cards"]:
-        ms = [cfg["particle"]["$finals"][x]["mass"] for x in "BCD"]
-        ev = kin.lattice3(zoo.M_TOP, ms, payload["K"], seed=payload["seed"], orientations=2)
-        rest = zoo.p4_dict("BCD", ev)
-        moving = zoo.p4_dict("BCD", [kin.boost(a, BETA) for a in ev])
+        names = "".join(cfg["data"]["dat_order"])
+        fourbody = len(names) == 4
+        if fourbody:
+            ev = four.lattice4(2, seed=payload["seed"], orientations=2)
+        else:
+            ms = [cfg["particle"]["$finals"][x]["mass"] for x in "BCD"]
+            ev = kin.lattice3(zoo.M_TOP, ms, payload["K"], seed=payload["seed"], orientations=2)
+        tol = 1e-7 if fourbody else 1e-9  # four-body: alignment angle beta = 0 obtained through acos (see C01)
+        rest = zoo.p4_dict(names, ev)
+        moving = zoo.p4_dict(names, [kin.boost(a, BETA) for a in ev])
         case0 = {"part": "card", "label": label}
         try:
             c0, a0 = _load(cfg)
@@ -52,19 +58,26 @@ def card_work(payload):
         scale = float(np.abs(ref).max())
         if not np.all(ref > 0):
             continue
-        if np.max(np.abs(ref_m - ref) / ref) > 1e-9:
+        if np.max(np.abs(ref_m - ref) / ref) > tol:
             # frame dependence of the reference itself is C01's business; C02 compares like with like
             res.count("reference_frame_dependent")
         chains = cfg["decay"]["A"]
-        perms = list(itertools.permutations(range(len(chains))))
-        for ip, perm in enumerate(perms):
+        # four-body cards: the order of the alternatives of the intermediate state R_BCD is permuted as well
+        sub = cfg["decay"].get("R_BCD") if fourbody and isinstance(cfg["decay"].get("R_BCD", [None])[0], list) else None
+        perms = [(pa, ps) for pa in itertools.permutations(range(len(chains))) for ps in (itertools.permutations(range(len(sub))) if sub else [None])]
+        for ip, (perm, psub) in enumerate(perms):
             opts_list = option_tuples(full=(ip == 0 or payload["full"]))
+            if "(default-bw_l)" in label:
+                opts_list = opts_list[:1]
             for opts in opts_list:
                 cfg2 = copy.deepcopy(cfg)
                 cfg2["decay"]["A"] = [chains[i] for i in perm]
+                if psub is not None:
+                    cfg2["decay"]["R_BCD"] = [sub[i] for i in psub]
                 d = {k: v for k, v in opts.items() if not (k == "align_ref" and v is None)}
                 cfg2["data"].update(d)
-                case = dict(case0, perm=list(perm), opts=opts)
+                plabel = tuple(perm) if psub is None else tuple(perm) + ("sub",) + tuple(psub)
+                case = dict(case0, perm=list(plabel), opts=opts)
                 fam = label.split("|")[0]
                 try:
                     c, a = _load(cfg2)
@@ -75,27 +88,27 @@ def card_work(payload):
                     frames = [("rest", rest, ref)]
                     # align_ref=center_mass takes the momenta it is given as centre-of-mass momenta: with a moving
                     # parent it is admissible only together with center_mass=True
-                    if not (opts["align_ref"] == "center_mass" and not opts["center_mass"]):
+                    if not (opts["align_ref"] == "center_mass" and not opts["center_mass"]) and "(default-bw_l)" not in label:
                         frames.append(("moving", moving, ref))
                     for fname, p4, want in frames:
                         dens, _ = zoo.density(c, a, p4)
-                        res.case(nontrivial_key=(label, perm, tuple(sorted(opts.items(), key=str)), fname), n=len(want))
+                        res.case(nontrivial_key=(label, plabel, tuple(sorted(opts.items(), key=str)), fname), n=len(want), outcome=(fam, fname, len(chains)))
                         dev = np.abs(dens - want) / np.maximum(np.abs(want), 1e-6 * scale)
-                        if np.all(np.isfinite(dev)) and dev.max() <= 1e-9:
-                            res.stat_max("rel_dev_on_passing_cases", dev.max())
-                        if not np.all(np.isfinite(dens)) or dev.max() > 1e-9:
+                        if np.all(np.isfinite(dev)) and dev.max() <= tol:
+                            res.stat_max("rel_dev_on_passing_cases_4body" if fourbody else "rel_dev_on_passing_cases", dev.max())
+                        if not np.all(np.isfinite(dens)) or dev.max() > tol:
                             j = int(np.nanargmax(dev))
                             what = []
-                            if perm != tuple(range(len(chains))):
+                            if tuple(perm[: len(chains)]) != tuple(range(len(chains))) or (psub is not None and tuple(psub) != tuple(range(len(sub)))):
                                 what.append("chain-order")
                             what += [k for k, v in opts.items() if v not in (None, False) and not (k == "random_z" and v is True)]
                             if opts["random_z"] is False:
                                 what.append("random_z=False")
                             # fingerprint = the leading cause (an option that already fails alone names the class)
                             tag = "align_ref" if "align_ref" in what else ("+".join(what) or "defaults")
-                            res.violation("%s|%s|%s" % (tag, fname, fam), "card %s, chain order %r, options %r, %s frame: density %r, reference %r (rel %.3g) at event %d" % (label, perm, d, fname, float(dens[j]), float(want[j]), float(dev.max()), j), case)
+                            res.violation("%s|%s|%s" % (tag, fname, fam), "card %s, chain order %r, options %r, %s frame: density %r, reference %r (rel %.3g) at event %d" % (label, plabel, d, fname, float(dens[j]), float(want[j]), float(dev.max()), j), case)
                 except Exception as e:
-                    res.violation("variant:exception|%s" % fam, "card %s order %r options %r raised %s: %s" % (label, perm, d, type(e).__name__, str(e)[:200]), case)
+                    res.violation("variant:exception|%s" % fam, "card %s order %r options %r raised %s: %s" % (label, plabel, d, type(e).__name__, str(e)[:200]), case)
     res.sample({"part": "card", "label": payload["cards"][0][0], "option_tuples": len(option_tuples(True))}, limit=1)
     return res.done()
 
@@ -110,13 +123,19 @@ def cards(tier):
         if l.startswith("vector_toy_pm1"):
             continue
         out.append((l, c))
+    for l, c, pc in four.members(tier):
+        if (any(c["particle"]["$finals"][x]["J"] for x in "BCDE") or l.startswith("four_scalar_pv|")) and sum(len(v) if isinstance(v[0], list) else 1 for k, v in c["decay"].items()) > len(c["decay"]):
+            out.append((l, c))
+    # line shape left at its default: the l of the running width is taken from the first declared decay of R_BCD
+    out.append(("four_scalar_pv(default-bw_l)|cascBC+cascBD", four.card4("scalar_pv", ("cascBC", "cascBD"), explicit_bw_l=False)))
     return out
 
 
 def run(tier, seed, only=None):
     rep = Report(
         PID, tier, seed, "exploration",
-        rule="cards with spinning final-state particles and >= 2 chains (incl. spin 1/2, two-of-three topologies, two resonances in a slot) x all permutations of the chain list x "
+        rule="cards with spinning final-state particles and >= 2 chains (three-body incl. spin 1/2, two-of-three topologies, two resonances in a slot; four-body: 3 spin sets x combinations of 4 topologies) x "
+             "all permutations of the chain list (four-body: also of the alternatives of the intermediate state) x "
              "option tuples (align_ref, random_z, center_mass, only_left_angle: all 16 for the declared order, 7 for the other orders in the quick tier) x events in the parent rest frame and "
              "in a frame where the parent moves with beta=0.6; distinct = (card, permutation, options, frame)",
         assumptions=["parameters copied by name (including the fixed reference coupling)", "r_boost left at its default True",
@@ -124,7 +143,8 @@ def run(tier, seed, only=None):
     )
     cs = cards(tier)
     if tier == "quick":
-        cs = cs[seed % 2::2] if len(cs) > 30 else cs
+        c3 = [x for x in cs if not x[0].startswith("four_")]
+        cs = (c3[seed % 2::2] if len(c3) > 30 else c3) + [x for x in cs if x[0].startswith("four_")]
     n = 42
     out = pool.run_items("mc.props.C02", "card_work", [{"cards": cs[i::n], "K": 3 if tier == "quick" else 5, "seed": seed, "full": tier == "thorough"} for i in range(n) if cs[i::n]])
     for r in out:
